@@ -17,7 +17,7 @@ var codecStub = []string{
 var codecAssume = []string{
 	"the reference codec in /verif/pkg/refcodec is a correct reading of the Bebop wire format as stated in C03/C20",
 	"schemas are drawn from /verif/pkg/schema's generator plus a fixed core population; accepted schemas whose generated code does not compile are excluded and listed (C12 is not claimed)",
-	"dates are restricted to the range both time.Time.UnixNano and int64 ticks represent; NaN map keys are excluded",
+	"dates are restricted to the range both time.Time.UnixNano and int64 ticks represent; a map holds each NaN key bit pattern at most once",
 }
 
 func stdRealStub() map[string][]string {
